@@ -467,6 +467,33 @@ def h_mf_collapse(env, n, rows, canary=False):
         env.check_vec_eq(x, y, f"collapse: factors are the sums over duplicate words [case {rows}]")
 
 
+def h_mf_collapse_large(env, n, n_rows, dtype):
+    """ENUMERATED shape: collapse on MANY rows (more than an 8-bit index can count) stored in the integer type the class itself
+    uses (np.int8); factors are concrete dyadic rationals so that sums are exact"""
+    import numpy as np
+    from symx import shim
+    from tangelo.toolboxes.operators import MultiformOperator
+    rnd = random.Random(n_rows * 31 + n)
+    rows = [[rnd.randrange(4) for _ in range(n)] for _ in range(n_rows)]
+    fac = [rnd.randrange(-8, 9) / 8 + 1j * rnd.randrange(-8, 9) / 8 for _ in range(n_rows)]
+    ref = {}
+    for r, c in zip(rows, fac):
+        ref[tuple(r)] = ref.get(tuple(r), 0) + c
+    ref = {k: v for k, v in ref.items() if abs(v) > 1e-12}
+    with shim.concrete_mode():
+        arr = np.array(rows, dtype=dtype).reshape(n_rows, n)
+        before = arr.copy()
+        uniq, f = MultiformOperator.collapse(arr, np.array(fac, dtype=complex))
+    got = {}
+    for r, c in zip(np.asarray(uniq).tolist(), list(f)):
+        got[tuple(int(x) for x in r)] = got.get(tuple(int(x) for x in r), 0) + complex(c)
+    got = {k: v for k, v in got.items() if abs(v) > 1e-12}
+    env.check_same(sorted(got), sorted(ref), f"collapse of {n_rows} {np.dtype(dtype).name} rows: the set of words")
+    env.check_true(all(abs(got[k] - ref[k]) < 1e-9 for k in got if k in ref), f"collapse of {n_rows} {np.dtype(dtype).name} rows: factors are the sums over duplicate words",
+                   detail=str([(k, got[k], ref[k]) for k in got if k in ref and abs(got[k] - ref[k]) >= 1e-9][:3]))
+    env.check_true(bool((arr == before).all()), "collapse leaves the array passed in unchanged")
+
+
 def h_mf_mul(env, n, cases, real=False, canary=False):
     """MultiformOperator product = reference Pauli product (textbook table)"""
     from tangelo.toolboxes.operators import MultiformOperator
@@ -644,6 +671,9 @@ def shapes(tier, seed):
     r3 = sub("mf3")
     for cls in ("F", "Fa", "Q", "H", "Hb"):
         out.append(Shape(f"scalar-types/{cls}", h_scalar_types, dict(cls=cls), modules=()))
+    import numpy as _np
+    for (n_, k_, dt) in ((3, 130, _np.int8), (4, 300, _np.int8), (2, 40, _np.int64), (3, 200, _np.uint8)):
+        out.append(Shape(f"multiform/collapse-large/n{n_}/{k_}/{_np.dtype(dt).name}", h_mf_collapse_large, dict(n=n_, n_rows=k_, dtype=dt), modules=()))
     out.append(Shape("multiform/encode/n1", h_mf_encode, dict(n=1, word_sets=[(w,) for w in w1] + [(w1[1], w1[3])]), modules=MODS))
     out.append(Shape("multiform/encode/n2", h_mf_encode, dict(n=2, word_sets=[(w,) for w in w2] + [tuple(r3.sample(w2, 2)) for _ in range(6)]), modules=MODS))
     out.append(Shape("multiform/encode/n3", h_mf_encode, dict(n=3, word_sets=[(w,) for w in (w3 if tier == "thorough" else r3.sample(w3, 16))]
